@@ -79,6 +79,20 @@ mod routing_table;
 mod store;
 mod types;
 
+/// Verification hooks: re-exports of `pub` items living in private modules.
+#[cfg(feature = "verif")]
+pub mod verif {
+    pub use super::{
+        bucket::{KBucket, KBucketEntry},
+        message::KademliaMessage,
+        query::{QueryAction, QueryEngine},
+        record::ProviderRecord,
+        routing_table::RoutingTable,
+        store::{MemoryStore, MemoryStoreAction, MemoryStoreConfig},
+        types::{ConnectionType, Distance, KademliaPeer, Key, KeyBytes},
+    };
+}
+
 mod schema {
     pub(super) mod kademlia {
         include!(concat!(env!("OUT_DIR"), "/kademlia.rs"));
